@@ -921,6 +921,15 @@ class Interp(object):
         return result
 
     def eval_Call(self, node, frame):
+        if self.spec_mode and isinstance(node.func, ast.Name) and node.func.id == 'old' and len(node.args) == 1:
+            key = ast.dump(node.args[0])
+            f = frame
+            while f is not None:
+                olds = getattr(f, 'olds', None)
+                if olds is not None and key in olds:
+                    return olds[key]
+                f = f.closure
+            raise Unsupported('old(%s) was not captured at entry' % ast.unparse(node.args[0]))
         fn = self.eval(node.func, frame)
         args = []
         for a in node.args:
